@@ -83,6 +83,89 @@ theorem C49_witness_raw :
 /-- non-vacuity of the hypotheses of `C49_query_del_partial` -/
 example : canonicalSeg ['a','=','1'] = true ∧ canonicalSeg ['b','=','%','z'] = true ∧ plainKey ['a'] = true := by decide
 
+/-- **QUERY_DEL_ALL_EXCEPT on canonical queries**: the keys it deletes are the parsed keys not in the keep list
+    (`exceptKeys`, the `req.Query` cache of a fresh request); the backend then sees exactly the old pairs whose key is
+    kept — for all lists of literal-key pieces and all keep lists. -/
+theorem C49_query_del_all_except_partial (L : List Str) (keep : List Str) (hL : ∀ s ∈ L, canonicalSeg s = true) :
+    parseSegs (L.filter fun s => !segHit (exceptKeys L keep) s) = (parseSegs L).filter fun p => keep.contains p.1 :=
+  delx_partial L keep hL
+
+/-- witness: an encoded key that is not to be kept survives QUERY_DEL_ALL_EXCEPT (`%61=1&b=2`, keep `b`) -/
+theorem C49_witness_del_all_except :
+    parseSegs ([['%','6','1','=','1'], ['b','=','2']].filter fun s =>
+      !segHit (exceptKeys [['%','6','1','=','1'], ['b','=','2']] [['b']]) s) = [(['a'], ['1']), (['b'], ['2'])] := by decide
+
+/-- **QUERY_ADD** (all queries, also non-canonical ones): appending the piece `k=v` for plain `k`, `v` adds exactly the
+    pair (k, v) at the end of what the backend parses and changes nothing else. -/
+theorem C49_query_add (L : List Str) (k v : Str) (hk : plainKey k = true) (hv : plainKey v = true) :
+    parseSegs (L ++ [k ++ '=' :: v]) = parseSegs L ++ [(k, v)] :=
+  add_general L k v hk hv
+
+/-- **Lists of deletions compose**: QUERY_DEL k1 followed by QUERY_DEL k2 removes the same pieces as one
+    QUERY_DEL (k1 ++ k2) — for all piece lists (no canonicity needed). -/
+theorem C49_list_del_del (L : List Str) (k1 k2 : List Str) :
+    (L.filter fun s => !segHit k1 s).filter (fun s => !segHit k2 s) = L.filter fun s => !segHit (k1 ++ k2) s :=
+  del_del L k1 k2
+
+/-- the `req.Query` cache makes action lists differ from their parts: after `QUERY_DEL a` on `a&b=2` the raw query
+    still holds the key `a`, but the cache no longer does, so a following `QUERY_RENAME a n` is a no-op
+    (witness that sequential composition is NOT the composition of the single-action effects on the parsed query) -/
+theorem C49_witness_list_cache :
+    let r0 : Req := { host := [], path := ['/'], rawQuery := ['a','&','b','=','2'], hdr := [] }
+    let r1 := doAction .queryDel [['a']] r0
+    (doAction .queryRename [['a'], ['n']] r1).rawQuery = ['a','&','b','=','2'] ∧
+    (parseQuery (doAction .queryRename [['a'], ['n']] r1).rawQuery).map (·.1) = [['a'], ['b']] := by decide
+
+/-! ### mod_redirect -/
+
+theorem C49_effect_url_set (p host path q : Str) : doRedirect .urlSet p host path q = p := rfl
+
+/-- URL_PREFIX_ADD: prefix followed by the original request URI (path and, if present, `?` + raw query) -/
+theorem C49_effect_url_prefix_add (p host path q : Str) :
+    doRedirect .urlPrefixAdd p host path q = p ++ path ++ (if q.isEmpty then [] else '?' :: q) := by
+  simp [doRedirect, requestURI]
+
+/-- SCHEME_SET: the original URL with the configured scheme -/
+theorem C49_effect_scheme_set (p host path q : Str) :
+    doRedirect .schemeSet p host path q = p ++ [':','/','/'] ++ host ++ path ++ (if q.isEmpty then [] else '?' :: q) := by
+  simp [doRedirect, requestURI]
+
+/-- URL_FROM_QUERY: the value of the first pair with that key in what `url.ParseQuery` reads, "" if there is none -/
+theorem C49_effect_url_from_query (k host path q : Str) :
+    doRedirect .urlFromQuery k host path q =
+      (match (parseQuery q).find? (·.1 == k) with | some (_, v) => v | none => []) := rfl
+
+example : doRedirect .urlFromQuery ['u'] [] ['/'] ['a','=','1','&','u','=','%','2','F','x','&','u','=','y'] = ['/','x'] := by decide
+
+/-! ### mod_header -/
+
+/-- REQ/RSP_HEADER_SET / ADD / DEL are the header-map operations on the canonical name -/
+theorem C49_effect_mod_header (k v : Str) (h : List (Str × List Str)) :
+    doHeader .set [k, v] h = hdrSet h (canon k) v ∧ doHeader .add [k, v] h = hdrAdd h (canon k) v ∧
+    doHeader .del [k] h = hdrDel h (canon k) := ⟨rfl, rfl, rfl⟩
+
+/-- after a delete the header is gone -/
+theorem C49_effect_mod_header_del_gone (k : Str) (h : List (Str × List Str)) : hdrGet (hdrDel h k) k = [] := by
+  have : (hdrDel h k).find? (·.1 == k) = none := by
+    rw [List.find?_eq_none]
+    intro e he
+    simp only [hdrDel, List.mem_filter, bne_iff_ne, ne_eq] at he
+    simp [he.2]
+  simp [hdrGet, this]
+
+/-- HEADER_MOD scheme_set: an `http://` / `https://` value gets the configured scheme, anything else is left alone -/
+theorem C49_effect_set_scheme (rest s : Str) :
+    setScheme (sHttp ++ rest) s = s ++ [':','/','/'] ++ rest ∧ setScheme (sHttps ++ rest) s = s ++ [':','/','/'] ++ rest := by
+  constructor <;> simp [setScheme, sHttp, sHttps, indexOf, List.isPrefixOf]
+
+theorem C49_effect_set_scheme_other (uri s : Str) (h1 : sHttp.isPrefixOf uri = false) (h2 : sHttps.isPrefixOf uri = false) :
+    setScheme uri s = uri := by simp [setScheme, h1, h2]
+
+/-- HEADER_MOD query_add appends `k=v` with the right separator -/
+theorem C49_effect_add_query (uri k v : Str) :
+    addQuery uri k v = uri ++ (if uri.contains '?' then ['&'] else ['?']) ++ k ++ '=' :: v := by
+  unfold addQuery; split <;> simp
+
 /-! ### effects of the other actions -/
 
 theorem C49_effect_host_set (h : Str) (r : Req) :
